@@ -1,7 +1,7 @@
 from vdriver import U
 
 PROPERTY = {
-    "level": "other",
+    "level": "proof",
     "explanation": "every public operation of the vector and the fixed buffer on an arbitrary valid container (capacity <= 4, count <= capacity, contents symbolic, element size concrete) with indices and counts over the FULL range of the index type, compared with the abstract sequence through a ghost witness element; allocator model may fail at every request; capacity growth (a_vec_setm) for all capacities up to 2^40 by a DFCC contract with loop contract",
     "trusted_base": ["cbmc 6.11.0 (SAT back end), cbmc's models of memcpy/memmove/malloc/free", "allocator model verif_alloc (realloc/malloc/free protocol with nondeterministic failure)",
                      "qsort/bsearch are libc (a_vec_sort / a_vec_search only forward their arguments; not checked)"],
@@ -34,3 +34,13 @@ add("buf", 2, ("quick", "thorough"), 3)
 for z, m in ((3, 4), (1, 4), (8, 3)):
     add("vec", z, ("thorough",), m)
     add("buf", z, ("thorough",), m)
+
+# ---- unbounded units (level P): capacity growth for every capacity <= 2^40 (loop contract incl. termination), accessors for
+# every count/capacity/index; element size concretised (24). An unbounded a_swap proof (loop contract + ghost witness byte over
+# blocks of symbolic size) ran out of memory (12 GB) and is not part of the check; a_swap is covered by the bounded units.
+UNITS += [
+    U("p_setm_growth", "seq_p.c", "h_setm_growth", level="P", functions=["a_vec_setm"], min_obl=10, timeout=300, replay=RP, defines=["PSIZ=24"], solver="cadical",
+      loops={"a_vec_setm": [{"loop_id": 0, "expect": "while (m < mem)", "invariants": "m < mem && mem <= 1099511627776ul", "assigns": "m", "decreases": "mem - m"}]},
+      key=["new capacity covers the request"]),
+    U("p_accessors", "seq_p.c", "h_accessors", level="P", functions=["a_vec_at", "a_vec_of", "a_vec_top", "a_vec_end"], min_obl=4, solver="cadical", defines=["PSIZ=24"], timeout=300, replay=RP),
+]
